@@ -1,6 +1,7 @@
 import NopModel.Lemmas.StopsDec
 import NopModel.Lemmas.EncWEmits
 import NopModel.Lemmas.Size
+import NopModel.Rpc
 /-! C10 — I/O errors propagate verbatim and stop the operation (read side, then write side). -/
 namespace Nop
 
@@ -86,6 +87,53 @@ theorem C10_write_no_room (t : Ty) (v : Val) (s : Snk) (hc : s.fault = .none) (h
   by_cases hf : framesOk (size t v) s.frames = true
   · simp only [hf, Bool.not_true, Bool.false_eq_true, ↓reduceIte, preW_clean hc, hr]
   · simp only [hf, Bool.not_false, ↓reduceIte]
+
+/-! ### RPC request (`SimpleMethodSender::SendMethod`): two `Serializer::Write`s -/
+
+/-- selector, then the argument tuple, each through `Serializer::Write` -/
+def Rpc.sendW (sk : IntKind) (m : Rpc.Method) (args : Val) : MW Unit := do
+  serialize (.int sk .plain) (.int m.sel)
+  serialize m.argsTy args
+
+/-- **Send faults.** Failing any call the sender's writer receives while a request is written
+makes `SendMethod` stop there with exactly that error: the argument tuple is not started after a
+failed selector write, nothing follows a failed argument write. -/
+theorem C10_send_stops (sk : IntKind) (m : Rpc.Method) (args : Val) (s : Snk) (k : Nat) (e : Err)
+    (hs : s.fault = .armed k e) (r : Except Err Unit) (s' : Snk) (h : Rpc.sendW sk m args s = (r, s')) :
+    (s'.fault = .none ∨ ∃ j, s'.fault = .armed j e) ∨ (s'.fault = .dead e ∧ r = .error e) :=
+  (StopsW.bind (stopsW_serialize _ _) (fun _ => stopsW_serialize _ _)) e s r s' (Or.inr ⟨k, hs⟩) h
+
+theorem fits_after {s : Snk} {A : Bytes} {a b : Nat} (h1 : HChan) (h : s.fits (a + b)) (hA : A.length ≤ a) :
+    ({ s.acc A with chan := h1 } : Snk).fits b := by
+  have h2 : s.fits (A.length + b) :=
+    ⟨h.1, room_mono (by omega) h.2.1, framesOk_mono (by omega) h.2.2⟩
+  exact fits_right h1 h2
+
+/-- **The request on the wire is the pure `request`** (the bytes C14's dispatcher theorems are
+stated on): on a healthy writer with room for both parts, the calls of `SendMethod` append
+exactly `request sk m args`. -/
+theorem C10_send_refines (sk : IntKind) (m : Rpc.Method) (args : Val) (req : Bytes)
+    (hreq : Rpc.request sk m args = .ok req) (s : Snk) (hc : s.chan = {})
+    (hfit : s.fits (size (.int sk .plain) (.int m.sel) + size m.argsTy args)) :
+    ∃ h', Rpc.sendW sk m args s = (.ok (), { s.acc req with chan := h' }) := by
+  unfold Rpc.request at hreq
+  cases hea : encode m.argsTy args {} with
+  | error e => simp [hea] at hreq
+  | ok r =>
+    obtain ⟨abs, ha⟩ := r
+    simp only [hea, Except.ok.injEq] at hreq
+    subst hreq
+    have hsel : encode (.int sk .plain) (.int (m.sel : Int)) {} = .ok (encInt sk m.sel, {}) := rfl
+    have h1 := C10_write_refines _ _ _ _ _ hsel s hc (fits_left hfit)
+    have hle : (encInt sk (m.sel : Int)).length ≤ size (.int sk .plain) (.int m.sel) :=
+      encode_length_le _ _ _ _ _ hsel
+    have h2 := C10_write_refines _ _ _ _ _ hea { s.acc (encInt sk m.sel) with chan := {} } rfl
+      (fits_after {} hfit hle)
+    refine ⟨ha, ?_⟩
+    unfold Rpc.sendW
+    rw [bindW_run, h1]
+    simp only
+    rw [h2, acc_chan]
 
 /-- non-vacuity: a table entry holding a string; failing the 9th call (the string's payload
 block, inside the entry's BoundedWriter) returns that error, nothing after it; the bytes before
